@@ -1,8 +1,71 @@
 /-
-C12 — property theorems (under construction; see DESIGN.md section 8).
+C12 — sender side of acknowledged requests, client role.
+
+Property theorems only (helper lemmas: `Proofs/Client*.lean`).  Model:
+`Model/Client.lean` (code-shaped, tied to `service.Client` by the scripted-peer
+correspondence runs); specification: `Spec/Client.lean`.  The recorded
+deviations of the code (E5 ack-before-registration, the single ping slot, E9,
+the A2 identifier wrap) are kept out of the `…_partial` statements by explicit
+hypotheses and proved as closed `…_counterexample`s on the model.
 -/
-import Mqtt.Model.Client
-import Mqtt.Spec.Client
+import Mqtt.Proofs.Client
+
+set_option linter.unusedSimpArgs false
 
 namespace Mqtt.Properties.C12
+open Mqtt.Iface.Broker (Pub Packet Bytes)
+open Mqtt.Iface.Client
+open Mqtt.Model.Client
+open Mqtt.Proofs.Client
+
+/-! ## (a) every PUBREC is answered by a PUBREL with the same identifier -/
+
+/-- For every state of a connected client - whatever its queues hold, whether or
+not a QoS 2 publish with that identifier is in flight - a PUBREC from the peer
+makes the client write exactly one packet, the PUBREL with the same
+identifier; nothing completes and nothing but the QoS 2 send queue changes. -/
+theorem C12_pubrec_pubrel (c : C) (hc : c.connected = true) (id : Nat) :
+    (step c (.peer (.pubrec id))).2 = [.wrote (.pubrel id)] ∧
+    (peer c (.pubrec id)).2 = [.wrote (.pubrel id)] ∧
+    (step c (.peer (.pubrec id))).1 =
+      { c with pub2out := c.pub2out.ack Mqtt.Generated.tPUBREC id } := by
+  rw [step_peer c hc]
+  exact ⟨rfl, rfl, rfl⟩
+
+/-- a connected client with two QoS 2 publishes (ids 7, 8) and one QoS 1 publish (id 9) in flight -/
+def demoA : C :=
+  runState init
+    [.connect (.connack false 0),
+     .api (.publish { qos := 2, topic := [97, 47, 98], pktid := 7, payload := [1] } 1),
+     .api (.publish { qos := 2, topic := [97], pktid := 8, payload := [2, 3] } 2),
+     .api (.publish { qos := 1, topic := [98], pktid := 9, payload := [] } 3)]
+
+example : demoA.connected = true ∧ demoA.pub2out.map (·.id) = [7, 8] ∧ demoA.pub1ack.map (·.id) = [9] ∧
+    (step demoA (.peer (.pubrec 8))).2 = [.wrote (.pubrel 8)] ∧
+    (step demoA (.peer (.pubrec 55))).2 = [.wrote (.pubrel 55)] ∧
+    (step demoA (.peer (.pubrec 8))).1.pub2out.map (fun r => (r.id, r.state)) = [(7, 0), (8, 5)] := by
+  decide
+
+/-! ## (b) QoS 0 publishes complete as soon as they are queued -/
+
+/-- A QoS 0 publish of a connected client writes the PUBLISH (identifier field
+0) and fires its completion - without error, exactly once, in the same step,
+after the write; no queue, nor anything else of the state, changes. -/
+theorem C12_qos0_completes_at_once (c : C) (hc : c.connected = true) (p : Pub) (tag : Nat)
+    (hq : p.qos = 0) :
+    (step c (.api (.publish p tag))).1 = c ∧
+    (step c (.api (.publish p tag))).2 =
+      .wrote (.publish { p with pktid := 0 }) :: (if tag = 0 then [] else [.complete tag false]) := by
+  rw [step_api c hc]
+  simp only [apiWrite, hq, BEq.rfl, ↓reduceIte, apiRegister, completeOut, List.singleton_append, true_and]
+  by_cases ht : tag = 0 <;> simp [ht]
+
+example :
+    (step demoA (.api (.publish { qos := 0, retain := true, topic := [97, 47, 98], pktid := 44, payload := [9] } 5))).2 =
+      [.wrote (.publish { qos := 0, retain := true, topic := [97, 47, 98], pktid := 0, payload := [9] }),
+       .complete 5 false] ∧
+    (step demoA (.api (.publish { qos := 0, topic := [97], payload := [] } 0))).2 =
+      [.wrote (.publish { qos := 0, topic := [97], payload := [] })] := by
+  decide
+
 end Mqtt.Properties.C12
